@@ -169,6 +169,18 @@ META["C10"] = dict(
     design_ref="DESIGN.md section 4 / C10", note=_DBNOTE + " murmur3, the leader's parallel map/sort pipeline, follower start-up timers and gRPC are outside the model; only caught-up states are observed.",
     technique="Coq proof (routing function, merge homomorphism over partitions, group confinement) + in-process cluster vs specification model differential")
 
+META["C11"] = dict(
+    text=("Theorems (Props/C11.v): for the model of pushdownAllowed (a walk over the nested group-by levels tracking the parameters carried one-to-one) "
+          "a query is pushed down whole only when every output group is confined to one partition — for every interpretation honouring goexpr's one-to-one "
+          "contract, every routing function of the partition keys and every nesting of FROM-subqueries; crosstab queries and queries over limited/ordered "
+          "subqueries are never pushed down; rejection is justified by a witness; under confinement the union of the partitions' answers is the local answer; "
+          "re-merging partition-side partial states gives the local state and value for every split. Correspondence: per generated query, rows of the cluster "
+          "plan vs rows of the local plan on the same points, and the real planner's choice vs the model's predicate."),
+    design_ref="DESIGN.md section 4 / C11",
+    note=("PARTIAL: the textual rewrite of planClusterNonPushdown, HAVING/ORDER/LIMIT/CROSSTAB on the leader and subquery execution are validated per generated query against the local plan, not proved. "
+          "Known findings (dependencies): bytemap.Get matches key prefixes (GROUP BY _ with CROSSTAB), goexpr reports LEN as one-to-one (pushdown of GROUP BY LEN(partition key))."),
+    technique="Coq proof (confinement theorem for the pushdown predicate; merge homomorphism) + per-query translation validation of the cluster plan against the local plan on in-process clusters")
+
 META["C12"] = dict(
     text=("Theorems (Props/C12.v): in the model of the follow protocol (leader reader, per-follower spec offsets and queues, follower-side dedup, "
           "memstore/filestore offsets; faults: clean stop, kill, restart, directory snapshot/restore, link cut, leader restart, adversarial extra "
@@ -203,7 +215,4 @@ META["C20"] = dict(
           "PERCENTILE states, a follower answering a leader over gRPC (in-process wiring is used for cluster checks)."),
     technique="Coq proof (codec round-trip by structural induction; finite codec table by vm_compute) + decoded-object differential through the real codec and RPC stack")
 
-NOT_APPLICABLE = [
-    {"property_id": p, "reason": _PENDING}
-    for p in ["C11"]
-]
+NOT_APPLICABLE = []
